@@ -347,6 +347,22 @@ func clearPrecondEnv(spec *CaseSpec) {
 	for k := range spec.InitFiles {
 		os.Remove(k)
 	}
+	// captured outputs are exported by the product (os.Setenv) and would pile up over the
+	// hundreds of thousands of cases of one shard process until no process can be exec'ed (E2BIG)
+	for _, s := range spec.Steps {
+		if s.OutputVar != "" {
+			os.Unsetenv(s.OutputVar)
+		}
+	}
+	// the product exports STEP_<node id>_DAG_EXECUTION_LOG_PATH for every node it sets up (node
+	// ids grow for the life of the process: bounded for an agent, not for a shard of this harness)
+	for _, e := range os.Environ() {
+		if strings.HasPrefix(e, "STEP_") {
+			if i := strings.IndexByte(e, '='); i > 0 && strings.HasSuffix(e[:i], "_DAG_EXECUTION_LOG_PATH") {
+				os.Unsetenv(e[:i])
+			}
+		}
+	}
 	for _, s := range spec.Steps {
 		if s.HasPrecond {
 			for i := 0; i < precondN(s); i++ {
